@@ -211,6 +211,21 @@ def run_case(ctx, d):
                 ctx.fail('reference-signature-with-well-formed-hashed-area-rejected', {'profile': d['profile'], 'result': res, 'area': hx(hashed)[:400], 'sig': hx(raw)[:600]})
                 continue
             ctx.count('accepted')
+            # the same must hold for a *copy* of the received signature (public twins, copied keys and messages hold copies)
+            try:
+                import copy as _copy
+                sc = _copy.copy(sig)
+                hd2 = sc.hashdata(subj)
+                tl2 = int.from_bytes(hd2[-4:], 'big')
+                ctx.count('copies_checked')
+                if hd2[-(6 + tl2):-6] != region:
+                    ctx.fail('copy-of-received-signature-hashes-other-octets', {'profile': d['profile'], 'received': hx(region), 'hashed': hx(hd2[-(6 + tl2):-6])})
+                elif sigwork.pgpy_verify(pub, subj, sc)[0] != 'true':
+                    ctx.fail('copy-of-received-signature-rejected', {'profile': d['profile'], 'area': hx(hashed)[:300]})
+                if bytes(sc) != bytes(sig):
+                    ctx.fail('copy-of-received-signature-exports-differently', {'profile': d['profile']})
+            except Exception as e:
+                ctx.fail('copy-of-received-signature-raised', {'profile': d['profile'], 'err': repr(e)[:160]})
             if bytes(sig) != raw:
                 ctx.observe('reexport_differs_outside_hashed_area' if bytes(sig)[:len(raw) - len(body) + 6 + len(hashed)][-len(region):] == region else 'reexport_changes_hashed_area')
             if sps:
